@@ -526,6 +526,19 @@ impl Driver {
         Driver::new(w, setup)
     }
 
+    /// Restart, keeping a crash point that was armed (relative to now) for the new incarnation.
+    pub fn restart_keep_crash(w: &W, setup: &Setup) -> Driver {
+        let armed = lock(w).crash_at;
+        {
+            let mut g = lock(w);
+            g.crashed = false;
+            g.storage.pending.clear();
+            g.push(Ev::Restart);
+            g.crash_at = armed;
+        }
+        Driver::new(w, setup)
+    }
+
     /// Default flow runner: settle, then release one pending gate chosen by `sched`, until `stop`
     /// says so, the stream ends, nothing can happen any more, or the step budget is exhausted.
     pub fn run(&mut self, sched: Sched, rng: &mut Rng, mut stop: impl FnMut(&Driver) -> bool) -> RunEnd {
